@@ -1,5 +1,5 @@
 """C18 — symbols are interned (R18a-d)."""
-from ..facts import callee, op_place, place_str, short_path
+from ..facts import op_const, callee, op_place, place_str, short_path
 from ..flow import places_read
 from .common import *
 
@@ -268,11 +268,53 @@ def r18c(ctx, rep):
                  "interned symbols eq?", [fn.span])
 
 
+def r18f(ctx, rep, rule="R18f"):
+    from .C10 import decode_template, TemplateError
+    facts = ctx["facts"]
+    rep.rule(rule, "the escape string->symbol emits carries the whole code point: the encoder (string_symbol and its closures) "
+             "formats an escaped character with one template `\\x` + {:x} + `;` whose argument is the character cast to u32 — "
+             "no masking, shifting or fixed-width digit table. parse_string reads the hex digits up to the `;` as one scalar "
+             "value, so a truncated escape decodes to a different character and two names collide.")
+    fns = [f for p, f in facts.fns.items() if p.startswith("marwood::vm::builtin::symbol::string_symbol")]
+    if not fns:
+        rep.anchor_lost(rule, "string_symbol")
+        return
+    found = []
+    fiddling = []
+    for f in fns:
+        for bb, j, st in f.stmts():
+            rv = st["rv"]
+            if rv["k"] == "use":
+                c = op_const(rv["a"])
+                if c is not None and c.get("ty", "").startswith("&[u8") and "\\\\x" in c.get("text", ""):
+                    try:
+                        found.append((f, st, decode_template(c["text"])))
+                    except TemplateError:
+                        pass
+            if rv["k"] == "bin" and rv["op"] in ("Shr", "Shl", "BitAnd", "Rem", "ShrUnchecked"):
+                fiddling.append((f, st))
+    key = "%s|string_symbol|escape" % rule
+    if not found:
+        rep.fail(rule, key, "string_symbol no longer formats its escape with a `\\x{:x};` template: the escape is assembled by hand%s "
+                 "and may not carry the whole code point" % (" (bit operations on the code point are present)" if fiddling else ""),
+                 [fiddling[0][1]["loc"]] if fiddling else [fns[0].span])
+        return
+    f, st, pieces = found[0]
+    shape_ok = [p_[0] for p_ in pieces] == ["lit", "arg", "lit"] and pieces[0][1] == "\\x" and pieces[2][1] == ";"
+    hexarg = any("new_lower_hex::<u32>" in (t.get("fnargs") or "") for bb, t in f.calls())
+    cast = any(s2["rv"]["k"] == "cast" and s2["rv"].get("from") == "char" and s2["rv"].get("to") == "u32" for b2, j2, s2 in f.stmts())
+    ok = shape_ok and hexarg and cast and not fiddling
+    (rep.ok if ok else rep.fail)(rule, key, "string_symbol escapes a character as \\x{:x}; of its full scalar value (char as u32)" if ok else
+                                 "the escape template / argument of string_symbol is not `\\x` + lower-hex of (char as u32) + `;`%s" % (
+                                     " (bit operations on the code point are present)" if fiddling else ""), [st["loc"]])
+
+
 def run(ctx, rep):
     r18a(ctx, rep)
     r18b(ctx, rep)
     r18b2(ctx, rep)
     r18e(ctx, rep)
+    r18f(ctx, rep)
     r18c(ctx, rep)
     from . import tables
     tables.r18d(ctx, rep)
